@@ -3,7 +3,7 @@ import re
 from lib.mergejoin import rows
 from lib.rules import arg_desc, agg_sites
 from lib.tables import describe
-from props.C11 import A_OLD, A_NEW, A_BOTH
+from props.C11 import A_OLD, A_NEW, A_BOTH, rule_aspa as c11_rule_aspa_construct
 
 META = dict(
     level='other',
@@ -20,7 +20,7 @@ META = dict(
     decides='per-row behaviour of both merge functions, argument order and serial of PayloadDelta::merge',
     undecided='the algebraic law over sequences of data sets',
     trusted_base=['rustc MIR construction + callee resolution'],
-    rules=['K4 StandardDelta::merge rows', 'K4 AspaDelta::merge rows', 'K4 PayloadDelta::merge shape'],
+    rules=['K4 StandardDelta::merge rows', 'K4 AspaDelta::merge rows', 'K4 PayloadDelta::merge shape', 'K4 AspaDelta::construct remembers the old provider set (shared with C11)'],
 )
 
 
@@ -164,4 +164,5 @@ def rule_payload(ctx):
             ctx.check(ok, 'K4', 'PayloadDelta::merge:%s' % f, '%s = merge(self.%s, new.%s)' % (f, f, f), '%s = %s' % (f, d[f]))
 
 
-RULES = [rule_standard, rule_aspa, rule_payload]
+# the merge table reads the provider set remembered by Update/Withdraw: AspaDelta::construct must remember the OLD one
+RULES = [rule_standard, rule_aspa, rule_payload, c11_rule_aspa_construct]
